@@ -263,7 +263,7 @@ hlib.encoded(hashutil._SHA256d_Hasher, hashutil.tagged_hasher, hashutil.tagged_h
              mfilenode.MutableFileNode.get_cancel_secret, mfilenode.MutableFileNode.init_from_cap, mcommon.derive_mutable_keys,
              uri_mod.WriteableSSKFileURI.__init__, uri_mod.ReadonlySSKFileURI.__init__, uri_mod.WriteableMDMFFileURI.__init__,
              uri_mod.ReadonlyMDMFFileURI.__init__, uri_mod.CHKFileURI.__init__, upload_mod.Tahoe2ServerSelector._create_trackers,
-             upload_mod.FileHandle._get_encryption_key_convergent, checker_mod.Checker.__init__, dirnode_mod._encrypt_rw_uri)
+             upload_mod.FileHandle._get_encryption_key_convergent, checker_mod.Checker.__init__, dirnode_mod._encrypt_rw_uri, dirnode_mod.DirectoryNode._decrypt_rwcapdata)
 
 
 def _ideal(x):
@@ -278,7 +278,8 @@ def pick(seq, i):
 
 
 # argument tokens of the documented lengths (two of each, so that swapped arguments are visible) and the empty string
-V32 = (b"L" * 32, b"M" * 31 + b"!", b"")
+# (the second 32-byte secret begins and ends with ASCII whitespace: secrets are binary values, every byte counts)
+V32 = (b"L" * 32, b" \t" + b"M" * 28 + b"\r\n", b"")
 V16 = (b"k" * 16, b"j" * 15 + b"?", b"")
 V20 = (b"p" * 20, b"q" * 19 + b"@")
 VANY = (b"some data / DER bytes of arbitrary length", b"x", b"")
@@ -458,7 +459,11 @@ def h_mutable_chain(a: int, b: int, c: int, mdmf: bool, readonly: bool) -> bool:
     dw = uri_mod.MDMFDirectoryURI(w) if mdmf else uri_mod.DirectoryURI(w)
     if dw.get_storage_index() != want_si or dw.get_readonly().get_storage_index() != want_si:
         return "directory cap storage index differs"
-    sh = client_mod.SecretHolder(lease_secret, b"conv")
+    sh = client_mod.SecretHolder(lease_secret, b" conv\n")
+    if sh.get_renewal_secret() != s.client_renewal(lease_secret) or sh.get_cancel_secret() != s.client_cancel(lease_secret):
+        return "client renewal/cancel secret is not the tagged digest of exactly the configured lease secret"
+    if sh.get_convergence_secret() != b" conv\n":
+        return "convergence secret altered"
     node = mfilenode.MutableFileNode(None, sh, {"k": 3, "n": 10}, None)
     node.init_from_cap(r if readonly else w)
     if node.get_storage_index() != want_si or node.get_readkey() != want_rk:
@@ -548,7 +553,7 @@ def h_immutable_chain(a: int, b: int, c: int, nserv: int, k: int, n: int, segsiz
     _Ideal.reset()
     s = Spec(_ideal)
     lease_secret, key = pick(V32, a), pick(V16, b)
-    conv = pick((b"convergence-secret-one" + b"1" * 10, b""), c)
+    conv = pick((b"\n convergence-secret-one" + b"1" * 6 + b" \t", b""), c)
     # CHK cap -> storage index
     cap = uri_mod.CHKFileURI(key, b"U" * 32, 3, 10, 1000)
     want_si = s.storage_index(key)
@@ -558,9 +563,9 @@ def h_immutable_chain(a: int, b: int, c: int, nserv: int, k: int, n: int, segsiz
         return "upload's storage_index_hash differs"
     sh = client_mod.SecretHolder(lease_secret, conv)
     if sh.get_renewal_secret() != s.client_renewal(lease_secret) or sh.get_cancel_secret() != s.client_cancel(lease_secret):
-        return "client renewal/cancel secret"
+        return "client renewal/cancel secret is not the tagged digest of exactly the configured lease secret"
     if sh.get_convergence_secret() != conv:
-        return "convergence secret"
+        return "convergence secret altered"
     # upload: per-server lease secrets (_create_trackers); the file secrets are computed as get_shareholders does
     frs = upload_mod.file_renewal_secret_hash(sh.get_renewal_secret(), want_si)
     fcs = upload_mod.file_cancel_secret_hash(sh.get_cancel_secret(), want_si)
@@ -607,3 +612,49 @@ def _res(d):
     if not out:
         raise hlib.HarnessError("Deferred did not fire")
     return out[0]
+
+
+import _dirfix as _F
+
+
+def h_dir_child_keys(order: int, r: int, same_child: bool) -> bool:
+    """
+    pre: 0 <= order <= 3 and 0 <= r <= 1
+    post: _ == True
+    """
+    # the same child (same write cap => same salt) linked from two directories with different writekeys: every encryption and every
+    # decryption must use H(tag, salt, THAT directory's writekey), whatever was computed before
+    _Ideal.reset()
+    s = Spec(_ideal)
+    rw_a = pick((b"URI:SSK:childwritecap:fp", b"URI:DIR2:otherchild:fp"), r)
+    rw_b = rw_a if same_child else b"URI:SSK:a-different-child:fp"
+    wk = {"A": V16[0], "B": V16[1]}
+    fake = _F.FakeAES()
+    saved = dirnode_mod.aes
+    dirnode_mod.aes = fake
+    try:
+        enc = {"A": dirnode_mod._encrypt_rw_uri(wk["A"], rw_a), "B": dirnode_mod._encrypt_rw_uri(wk["B"], rw_b)}
+        plain = {"A": rw_a, "B": rw_b}
+        nodes = {}
+        for d in ("A", "B"):
+            dn = dirnode_mod.DirectoryNode.__new__(dirnode_mod.DirectoryNode)
+            dn._node = NS(get_writekey=(lambda k=wk[d]: k))
+            nodes[d] = dn
+        seq = pick((("A", "B"), ("B", "A"), ("A", "B", "A"), ("B", "B", "A")), order)
+        del fake.calls[:]
+        for d in seq:
+            got = nodes[d]._decrypt_rwcapdata(enc[d])
+            if got != plain[d]:
+                return "directory %s does not recover its child's write cap (after %r)" % (d, seq)
+        calls = list(fake.calls)
+    finally:
+        dirnode_mod.aes = saved
+    if len(calls) != len(seq):
+        return "one decryption per entry expected"
+    for (d, (opn, key, data)) in zip(seq, calls):
+        salt = s.dir_salt(plain[d])
+        if enc[d][:16] != salt:
+            return "salt is not the specified hash of the child's write cap"
+        if opn != "decrypt" or key != s.dir_key(salt, wk[d]):
+            return "directory %s decrypted with a key that is not H(tag, salt, its own writekey)" % d
+    return True
